@@ -47,7 +47,12 @@ Inductive stmt :=
 | SChanClose (c : nat)
 | SForChan (c : nat) (n : nat) (body : list stmt)
 | SCollect (scname : nat) (acts : list (nat * list stmt))
-| SFirst (scname : nat) (k : option nat) (n : nat) (acts : list (nat * list stmt)) (body : list stmt).
+| SFirst (scname : nat) (k : option nat) (n : nat) (acts : list (nat * list stmt)) (body : list stmt)
+| SBorrow (r : nat) (d : Z) (claim : bool) (name : nat) (body : list stmt)   (* async with R.borrow/claim(a=d) as name *)
+| SIncrease (r : nat) (d : Z)
+| SDecrease (r : nat) (d : Z)
+| SSetRes (r : nat) (v : Z)
+| SLevel (r : nat).                                                           (* log the current level *)
 
 Record scenario := {
   sc_start : xtime;
@@ -57,8 +62,13 @@ Record scenario := {
   sc_tracked : list Z;
   sc_nlocks : nat;
   sc_nqueues : nat;
-  sc_nchans : nat
+  sc_nchans : nat;
+  sc_res : list (bool * Z)      (* static resources: (is Capacities, capacity) *)
 }.
+
+
+(** resource names: a static resource (< 100) or a share bound by an enclosing `borrow ... as name` *)
+Definition share_key (name : nat) : nat := 2000 + name.
 
 (** ** building notification objects *)
 Definition kind_of (o : objs) (n : nid) : nkind := nk (get_notif o n).
@@ -182,6 +192,9 @@ Fixpoint await_vals (ts : list tid) (acc : list Z) (k : list Z -> prog) : prog :
   | t :: r => v <- task_await t ;; await_vals r (acc ++ [zof v]) k
   end.
 
+Definition res_index (o : objs) (r : nat) : nat :=
+  match assoc_nat (share_key r) (snames o) with Some s => s | None => 0 end.
+
 (** ** compilation *)
 Fixpoint compile (s : stmt) : prog :=
   let fix compile_list (ss : list stmt) : prog :=
@@ -270,6 +283,14 @@ Fixpoint compile (s : stmt) : prog :=
         end in
       ForN (first_gen scname k (comp_acts acts)) n
            (fun v => emit (fun _ _ => [8; zof v]%Z) ;;; compile_list body)
+  | SBorrow r d claim name body =>
+      Dyn (fun o _ =>
+        with_borrow (res_index o r) d claim
+          (fun s => Upd (fun o => o <| snames := (share_key name, s) :: snames o |>) ;;; compile_list body))
+  | SIncrease r d => Dyn (fun o _ => res_increase (res_index o r) d)
+  | SDecrease r d => Dyn (fun o _ => res_decrease (res_index o r) d)
+  | SSetRes r v => Dyn (fun o _ => res_set (res_index o r) v)
+  | SLevel r => emit (fun o _ => [30; Z.of_nat r; res_level o (res_index o r)]%Z)
   end.
 
 Fixpoint compile_list (ss : list stmt) : prog :=
@@ -284,6 +305,26 @@ Definition empty_objs (start : xtime) (nroots : nat) : objs :=
      tracked := []; tasks := []; scopes := []; locks := []; queues := []; chans := []; ress := [];
      tnames := []; snames := []; trace := []; serial := 0 |}.
 
+(** [Resources(a=c)]: one resource with a tracked level; [Capacities(a=c)]: a borrowed share holding everything
+    of a private Resources(a=c) *)
+Definition alloc_cell (o : objs) (z : Z) : objs * nat :=
+  (o <| tracked := tracked o ++ [{| tval := z; tlisteners := [] |}] |>, length (tracked o)).
+Fixpoint alloc_static_res (rs : list (bool * Z)) (i : nat) (o : objs) : objs :=
+  match rs with
+  | [] => o
+  | (cap, c) :: r =>
+      let '(o1, t) := alloc_cell o c in
+      let p := length (ress o1) in
+      let o2 := o1 <| ress := ress o1 ++ [{| r_parent := None; r_debits := []; r_avail := t |}] |> in
+      let o3 :=
+        if cap then
+          let '(o2', t2) := alloc_cell o2 c in
+          o2' <| ress := ress o2' ++ [{| r_parent := Some p; r_debits := [c]; r_avail := t2 |}] |>
+              <| snames := (share_key i, S p) :: snames o2' |>
+        else o2 <| snames := (share_key i, p) :: snames o2 |> in
+      alloc_static_res r (S i) o3
+  end.
+
 Fixpoint iter {A} (n : nat) (f : A -> A) (x : A) : A :=
   match n with O => x | S n' => iter n' f (f x) end.
 
@@ -293,7 +334,8 @@ Definition init_objs (s : scenario) (nroots : nat) : objs :=
   let o2 := o1 <| tracked := map (fun z => {| tval := z; tlisteners := [] |}) (sc_tracked s) |> in
   let o3 := iter (sc_nlocks s) alloc_lock o2 in
   let o4 := iter (sc_nqueues s) alloc_queue o3 in
-  iter (sc_nchans s) alloc_chan o4.
+  let o5 := iter (sc_nchans s) alloc_chan o4 in
+  alloc_static_res (sc_res s) 0 o5.
 
 (** [usim.run(activities..., start=, till=)] *)
 Fixpoint do_roots (sc : nat) (i : nat) (roots : list (list stmt)) : prog :=
@@ -333,12 +375,13 @@ Definition b2z (b : bool) : Z := if b then 1%Z else 0%Z.
 Definition digest (s : scenario) (o : objs) : list Z :=
   (xt_code (onow o) :: 95 ::
    map (fun f => b2z (fval f)) (firstn (sc_nflags s) (flags o)) ++
-   map tval (tracked o) ++
+   map tval (firstn (length (sc_tracked s)) (tracked o)) ++
    flat_map (fun l => [b2z (match l_owner l with None => false | Some _ => true end); l_depth l;
                        Z.of_nat (length (waiting (get_notif o (l_notif l))))]) (firstn (sc_nlocks s) (locks o)) ++
    flat_map (fun q => [Z.of_nat (length (q_buf q)); b2z (q_closed q);
                        Z.of_nat (length (waiting (get_notif o (q_notif q))))] ++ q_buf q) (firstn (sc_nqueues s) (queues o)) ++
-   flat_map (fun c => [Z.of_nat (length (c_bufs c)); b2z (c_closed c)]) (firstn (sc_nchans s) (chans o)))%Z.
+   flat_map (fun c => [Z.of_nat (length (c_bufs c)); b2z (c_closed c)]) (firstn (sc_nchans s) (chans o)) ++
+   map (fun i => res_level o (res_index o i)) (seq 0 (length (sc_res s))))%Z.
 
 Definition run_scenario (steps fuel : nat) (s : scenario) : list (list Z) :=
   let m := mrun steps fuel (init_state s) in
